@@ -357,7 +357,7 @@ def run(chk):
         per_key[key] += 1
         if key in known_keys or per_key[key] <= 3:
             chk.violation(key, what, input, expected, observed)
-    ncases = 3500 if thorough else 280
+    ncases = 3000 if thorough else 280
     hashseeds = [0, 1, 2, 3, 5, 7, 11, 4242] if thorough else [0, 1, 7]
     chk.rule = ("%d seeded matrices (profiles plain / rich / duplicate frame names / unpropagated receivers / both / many mux groups / all, "
                 "plus long names, free signals, cycle times, equal signal names in two frames) + %d hand-made corpus matrices; per matrix: 13 "
